@@ -381,7 +381,7 @@ func c13Concurrent(ch *zsim.Choices, trace bool) *RunResult {
 			},
 		}
 		if len(ops) > 0 {
-			switch porcupine.CheckOperationsTimeout(model, ops, 20*time.Second) {
+			switch porcupine.CheckOperationsTimeout(model, ops, 8*time.Second) {
 			case porcupine.Illegal:
 				return viol("C13.basic_linearizable", "the Sample results of BasicSampler{%d} over %d concurrent calls are not those of any sequential order (first admitted, then every %d-th)", n, k, n)
 			case porcupine.Unknown:
@@ -446,9 +446,13 @@ func c13WhileDisabled(ch *zsim.Choices, build func()) {
 func c13Sequential(ch *zsim.Choices, trace bool) *RunResult {
 	summary := ""
 	var fail *zsim.Violation
+	sink := &c13Sink{got: map[string]int{}}
+	fatalID, fatalWant, fatalModel := "", false, ""
 	main := func() {
 		zerolog.DisableSampling(false)
-		zerolog.SetGlobalLevel(zerolog.TraceLevel)
+		// levels below Trace are legal (custom verbosity levels): the gates must be low enough for them
+		glob := []zerolog.Level{zerolog.TraceLevel, zerolog.Level(-8)}[ch.Weighted(3, 1)]
+		zerolog.SetGlobalLevel(glob)
 		var clock int64 = int64(ch.Intn(3)) * 1000
 		// TimestampFunc is a variable: the application may replace it at any time, and a sampler
 		// reads the clock through whatever it holds at that moment. A replaced function keeps
@@ -471,8 +475,7 @@ func c13Sequential(ch *zsim.Choices, trace bool) *RunResult {
 		}
 		install()
 		smp, model := genSampler(ch, 0)
-		sink := &c13Sink{got: map[string]int{}}
-		lgLevel := []zerolog.Level{zerolog.TraceLevel, zerolog.InfoLevel}[ch.Intn(2)]
+		lgLevel := []zerolog.Level{zerolog.TraceLevel, zerolog.InfoLevel, zerolog.Level(-6)}[ch.Weighted(3, 3, 1)]
 		var lg zerolog.Logger
 		c13WhileDisabled(ch, func() { lg = c13Derive(ch, zerolog.New(sink).Level(lgLevel).Sample(smp), sink) })
 		calls := 5 + ch.Intn(36)
@@ -508,7 +511,7 @@ func c13Sequential(ch *zsim.Choices, trace bool) *RunResult {
 				zsim.Probe("timestamp_func_replaced")
 			}
 			// WithLevel(Fatal/Panic) neither exits nor panics; LevelSampler has no slot for them
-			lvl := []zerolog.Level{zerolog.InfoLevel, zerolog.DebugLevel, zerolog.WarnLevel, zerolog.ErrorLevel, zerolog.TraceLevel, zerolog.NoLevel, zerolog.FatalLevel, zerolog.PanicLevel, zerolog.Level(9), zerolog.Disabled}[ch.Intn(10)]
+			lvl := []zerolog.Level{zerolog.InfoLevel, zerolog.DebugLevel, zerolog.WarnLevel, zerolog.ErrorLevel, zerolog.TraceLevel, zerolog.NoLevel, zerolog.FatalLevel, zerolog.PanicLevel, zerolog.Level(9), zerolog.Disabled, zerolog.Level(-2), zerolog.Level(-5)}[ch.Intn(12)]
 			var got, want bool
 			viaLogger := ch.Chance(1, 2) || lvl == zerolog.Disabled
 			if viaLogger {
@@ -521,7 +524,7 @@ func c13Sequential(ch *zsim.Choices, trace bool) *RunResult {
 					lg.WithLevel(lvl).Msg(id)
 				}
 				got = sink.got[id] == 1
-				if lvl < lgLevel || lvl == zerolog.Disabled {
+				if lvl < lgLevel || lvl < glob || lvl == zerolog.Disabled {
 					// rejected by the level gate: must not reach the sampler (model untouched)
 					want = false
 					zsim.Probe("level_rejected_event")
@@ -540,7 +543,27 @@ func c13Sequential(ch *zsim.Choices, trace bool) *RunResult {
 				zsim.Fail("C13.sequence", "call %d (level %v at clock %d, through logger: %v) returned %v, the documented rule gives %v for %v; last calls:\n%s", i, lvl, clock, viaLogger, got, want, model, strings.Join(hist, "\n"))
 			}
 		}
+		if ch.Chance(1, 6) {
+			// the last event of the process is a real Fatal(): it is sampled like any other event
+			// (the process exits either way; what reached the writer is compared afterwards)
+			fatalID = "fatal"
+			fatalModel = model.String()
+			fatalWant = model.sample(zerolog.FatalLevel, clock)
+			zsim.Probe("fatal_through_sampler")
+			lg.Fatal().Msg(fatalID)
+			zsim.Fail("harness", "Fatal().Msg returned")
+		}
 	}
 	s := zsim.Run(zsim.Config{MaxSteps: 100000, Trace: trace}, ch, main)
-	return finish(s, ch, summary, func() *zsim.Violation { return fail })
+	return finish(s, ch, summary, func() *zsim.Violation {
+		if fail != nil {
+			return fail
+		}
+		if fatalID != "" && s.Exited {
+			if got := sink.got[fatalID] == 1; got != fatalWant {
+				return viol("C13.sequence", "the final Fatal() event was written: %v; the documented rule gives %v for %v (state before the call)", got, fatalWant, fatalModel)
+			}
+		}
+		return nil
+	})
 }
